@@ -9,7 +9,7 @@ from vlib.pyround import to_quantum
 PID = 'C02'
 PROPERTY_FILE = 'Properties/C02.v'
 # generated model parts (translate/) this property's model / proofs really depend on
-GEN_DEPS = ['OpsImpl', 'QuantityImpl']
+GEN_DEPS = ['OpsImpl', 'QuantityImpl', 'StateInventory']
 MODEL_TARGETS = R.MODEL_TARGETS
 PROOF_TARGETS = ['Proofs/GenOpsEq.vo', 'Proofs/C02Undef.vo']
 COQ_HEADER = R.COQ_HEADER
